@@ -159,6 +159,16 @@ func TestC01(t *testing.T) {
 				}
 				txs = append(txs, tx)
 			}
+			if rng.IntN(3) == 0 && len(w.Factories) >= 3 {
+				// writer, fillers, slow reader, writer on one key: the reader hangs off a writer that
+				// has usually finished when it is queued and is followed at once by the next writer
+				pat, err := wrwPattern(rng, w, ts, 8+rng.IntN(30))
+				if err != nil {
+					t.Fatalf("pattern: %v", err)
+				}
+				txs = append(txs, pat...)
+				r.Count("writer_fill_reader_writer_patterns", 1)
+			}
 			blk, err := fx.Block(parent, parentView, ts, txs)
 			if err != nil {
 				t.Fatalf("block: %v", err)
@@ -339,4 +349,61 @@ func compareWithModel(ctx context.Context, fx *chainfx.Fixture, w *chainfx.World
 	return ""
 }
 
-var _ = rand.New
+// wrwPattern returns W1(k), n fillers on other keys, a slow reader R(k), W2(k) with three
+// different sponsors for W1, R and W2 so that k is their only conflict.
+func wrwPattern(rng *rand.Rand, w *chainfx.World, ts int64, n int) ([]*chain.Transaction, error) {
+	perm := rng.Perm(len(w.Factories))
+	k := w.Keys[rng.IntN(len(w.Keys))]
+	var nonce uint64 = 1 << 40
+	mk := func(sponsor int, a *chainfx.ProgAction) (*chain.Transaction, error) {
+		nonce += uint64(rng.IntN(1 << 20))
+		a.Nonce = nonce + uint64(rng.Uint32())
+		a.Start, a.End = -1, -1
+		a.Canonicalize()
+		base := chain.Base{Timestamp: (ts/1000 + 2) * 1000, ChainID: w.Rules.ChainID, MaxFee: 1 << 50}
+		return chainfx.Tx(base, []chain.Action{a}, w.Factories[sponsor])
+	}
+	val := func() []byte {
+		v := w.Value(rng, k, true)
+		if len(v) == 0 {
+			return nil
+		}
+		return v
+	}
+	var out []*chain.Transaction
+	add := func(sponsor int, a *chainfx.ProgAction) error {
+		tx, err := mk(sponsor, a)
+		if err == nil {
+			out = append(out, tx)
+		}
+		return err
+	}
+	if err := add(perm[0], &chainfx.ProgAction{Keys: []chainfx.KeyDecl{{Key: k, Perm: state.All}}, Ops: []chainfx.Op{{Kind: chainfx.OpPut, Key: k, Val: val()}}}); err != nil {
+		return nil, err
+	}
+	for i := 0; i < n; i++ {
+		// fillers touch no state key of their own (only their sponsor's balance): sponsor perm[0] keeps
+		// them behind W1, the others run freely
+		sp := perm[0]
+		if len(perm) > 3 && rng.IntN(2) == 0 {
+			sp = perm[3+rng.IntN(len(perm)-3)]
+		}
+		if err := add(sp, &chainfx.ProgAction{Ops: []chainfx.Op{{Kind: chainfx.OpYield, N: uint32(rng.IntN(5))}}}); err != nil {
+			return nil, err
+		}
+	}
+	if err := add(perm[1], &chainfx.ProgAction{Keys: []chainfx.KeyDecl{{Key: k, Perm: state.Read}}, Ops: []chainfx.Op{
+		{Kind: chainfx.OpYield, N: uint32(10 + rng.IntN(40))}, {Kind: chainfx.OpGet, Key: k},
+		{Kind: chainfx.OpYield, N: uint32(10 + rng.IntN(40))}, {Kind: chainfx.OpGet, Key: k},
+	}}); err != nil {
+		return nil, err
+	}
+	w2 := &chainfx.ProgAction{Keys: []chainfx.KeyDecl{{Key: k, Perm: state.All}}, Ops: []chainfx.Op{{Kind: chainfx.OpPut, Key: k, Val: val()}}}
+	if rng.IntN(3) == 0 {
+		w2.Ops = []chainfx.Op{{Kind: chainfx.OpDel, Key: k}}
+	}
+	if err := add(perm[2], w2); err != nil {
+		return nil, err
+	}
+	return out, nil
+}
